@@ -102,7 +102,7 @@ func main() { harness.Main("C20", "model_checking", run) }
 
 func run(r *harness.Run) {
 	verifhook.Clock = func() time.Time { return vnow }
-	r.Rule("full product of issue parameters (2 secrets x 2 server names x 4 users (two of them not starting with @) x 9 durations) x 6 issue instants (every second-of-minute class, minute/hour boundaries) x validation offsets around every boundary x (same/other secret) x (same user / other user / 10 near misses of the issued user ID: case variants of localpart and domain, padding, truncation at either end, empty), under a virtual clock; for every issued token: every byte x 4 bit patterns of the binary macaroon, every base64 character x 9 substitutes, 9 appended caveats x 2 validating users x before/after expiry, and tokens minted with the right key from every subset/ordering/duplication of the required caveats and malformed expiry caveats. Non-trivial = distinct (token, validation) whose expected verdict is 'refuse' for exactly one reason, or 'accept'. Oracle: reftoken = same secret AND same user AND caveats exactly the three issued AND elapsed seconds < duration.")
+	r.Rule("full product of issue parameters (2 secrets x 2 server names x 4 users (two of them not starting with @) x 9 durations) x 6 issue instants (every second-of-minute class, minute/hour boundaries) x validation offsets around every boundary x (same/other secret) x (same user / other user / 10 near misses of the issued user ID: case variants of localpart and domain, padding, truncation at either end, empty), under a virtual clock; for every issued token: every byte x 4 bit patterns of the binary macaroon, every base64 character x 9 substitutes, 9 appended caveats x 2 validating users x before/after expiry, 2 ... 512 (thorough 65537) repeated appended caveats with and without one deviating caveat at the end, and tokens minted with the right key from every subset/ordering/duplication of the required caveats and malformed expiry caveats. Non-trivial = distinct (token, validation) whose expected verdict is 'refuse' for exactly one reason, or 'accept'. Oracle: reftoken = same secret AND same user AND caveats exactly the three issued AND elapsed seconds < duration.")
 	r.Assume("HMAC-SHA256 / the macaroon library are trusted", "the macaroon location field (server name hint) is unauthenticated by the macaroon format: alterations that leave identifier, caveats and signature byte-identical are not counted as alterations", "textual alterations that base64-decode to identical bytes are the same token")
 
 	type one struct {
@@ -177,6 +177,7 @@ func run(r *harness.Run) {
 	far := strconv.FormatInt(base+1_000_000_000, 10)
 	past := strconv.FormatInt(base-1000, 10)
 	nIssued := 0
+	heavyDone := map[string]bool{}
 	for _, sec := range secrets {
 		for _, srv := range servers {
 			for _, usr := range users {
@@ -330,6 +331,39 @@ func run(r *harness.Run) {
 								}
 							}
 							r.Nontrivial("a:" + t2)
+						}
+						// many appended caveats (still possible without the key): counts around the sizes at which a counter of
+						// 8 or 16 bits wraps, alone and with one deviating caveat at the end; once per (user, secret)
+						if hk := usr + "|" + string(sec); !heavyDone[hk] {
+							heavyDone[hk] = true
+							for _, n := range r.PickInts([]int{2, 3, 255, 256, 257, 512}, []int{2, 3, 127, 128, 255, 256, 257, 511, 512, 1024, 65535, 65536, 65537}) {
+								for _, fam := range [][2]string{{"gen = 1", ""}, {"user_id = " + usr, "user_id = " + other}, {"time < " + past, "time < " + far}, {"time < " + far, ""}, {"gen = 1", "gen = 2"}} {
+									for _, withLast := range []bool{false, true} {
+										if withLast && fam[1] == "" {
+											continue
+										}
+										m2 := origMac.Clone()
+										cnt := n
+										if withLast {
+											cnt = n - 1
+										}
+										for i := 0; i < cnt; i++ {
+											_ = m2.AddFirstPartyCaveat([]byte(fam[0]))
+										}
+										if withLast {
+											_ = m2.AddFirstPartyCaveat([]byte(fam[1]))
+										}
+										b2, _ := m2.MarshalBinary()
+										t2 := base64.RawURLEncoding.EncodeToString(b2)
+										for _, vu := range []string{usr, other} {
+											for _, dl := range []int64{0, d + 100} {
+												c := one{ip, valP{sec, vu, dl}, fmt.Sprintf("%d appended caveats %q (last one %q: %v)", n, fam[0], fam[1], withLast), t2}
+												report("caveat-appended-many", c, false, check(c, false, "case"))
+											}
+										}
+									}
+								}
+							}
 						}
 						_ = within
 					}
